@@ -47,7 +47,8 @@ package twofactor
 //@   ensures never_touches_session: !emits Sess.Put(_, _)
 //@
 //@ func (EmailVerify).End
-//@   property C13 C18
+//@   property C13 C18 C17
+//@   ensures[C17] no_secret_leak: secrets_clean
 //@   -- the authorisation mark is only set for the token that was issued into this session
 //@   ensures[C13] email_token: each Sess.Put(?k, ?v) => k == Session2FAAuthed && v == "true" &&
 //@       sess_has(r, Session2FAAuthToken) && sess(r, Session2FAAuthToken) != "" &&
@@ -56,7 +57,8 @@ package twofactor
 //@   ensures[C18] no_panic: !panics
 //@
 //@ func (EmailVerify).PostStart
-//@   property C13
+//@   property C13 C17
+//@   ensures[C17] no_secret_leak: secrets_clean
 //@   -- the token put into the session is 16 fresh bytes and is mailed to the current user's address
 //@   ensures token_issued: each Sess.Put(?k, ?t) => k == Session2FAAuthToken &&
 //@       (emits Rand.Read(?n) -> ?re :: re == nil && len(n) == 16 && t == b64url(n))
@@ -72,7 +74,8 @@ package twofactor
 //@       prefixof("MW2(reqs=1,mountPathed=true)>ErrorHandler.Wrap>(*Recovery).", layers(h))
 //@
 //@ func (*Recovery).PostRegen
-//@   property C13 C12 C18
+//@   property C13 C12 C18 C17
+//@   ensures[C17] no_secret_leak: secrets_clean
 //@   -- new recovery codes are only ever saved for the request's own user, as bcrypt hashes
 //@   ensures[C13] owner_only: each Store.Save(?s) -> _ =>
 //@       ite(ctxuser(r) != nil, s == ctxuser(r), before Store.Load(?p) -> (?u, ?le) :: le == nil && u == s &&
